@@ -106,6 +106,36 @@ def des_ecb(k8, block):
         return Cipher(algorithms.TripleDES(k8), modes.ECB()).encryptor().update(block)
 
 
+def tdes_block(k, block, decrypt=False):
+    """TDES on one block by the `cryptography` library (independent of the code under test)"""
+    from cryptography.hazmat.primitives.ciphers import Cipher, algorithms, modes
+    import warnings
+    with warnings.catch_warnings():
+        warnings.simplefilter("ignore")
+        c = Cipher(algorithms.TripleDES(k), modes.ECB())
+        return (c.decryptor() if decrypt else c.encryptor()).update(block)
+
+
+SPECIAL_BLOCKS = WEAK_KEYS + [bytes(8), b"\xff" * 8, bytes.fromhex("01FE01FE01FE01FE"), bytes.fromhex("FE01FE01FE01FE01"),
+                              bytes.fromhex("1FE01FE00EF10EF1"), bytes.fromhex("E0FEE0FEF1FEF1FE")]
+
+
+def preimages_of_special_blocks(k, accept, limit=8):
+    """inputs X with TDES_k(X) equal, up to the parity bits, to a special block (a weak / semi-weak DES key, all zero,
+    all ones) and `accept(X)` true — found by *decrypting* the special values (the cipher is invertible, so a special
+    output can be solved for, where random inputs reach it with probability 2^-56)"""
+    out = []
+    for t in SPECIAL_BLOCKS:
+        for m in range(256):
+            mask = bytes((m >> i) & 1 for i in range(8))
+            x = tdes_block(k, bytes(a ^ b for a, b in zip(t, mask)), decrypt=True)
+            if accept(x):
+                out.append(x)
+                if len(out) >= limit:
+                    return out
+    return out
+
+
 def cbc_fixed_point_message(R, k8, nblocks, at=None, value=bytes(8)):
     """`nblocks` 8-byte blocks such that, in a CBC pass under `k8` from a zero IV, the input of the cipher at block
     `at` (chaining value xor plaintext block) is `value` — all zero by default: the plaintext block *equals* the
